@@ -77,6 +77,8 @@ STALE: Dict[str, Tuple[Tuple, bool, Optional[Tuple]]] = {
     "arg-class-module-removed-whose-name-is-a-prefix-of-the-traced-module": (row(M, "good1", {"a": T("stale_fx.mo", "C")}, INT), False, None),
     "return-class-package-removed-whose-name-is-a-prefix": (row(M, "Cls.meth", {"self": T(M, "Cls"), "x": INT}, T("stale_f", "C")), False, None),
     "function-in-local-scope": (row(M, "outer.<locals>.inner", {"a": INT}, INT), False, None),
+    "function-now-cache-wrapper-around-a-local-function": (row(M, "now_cached_local", {"a": INT}, INT), False, None),
+    "function-now-wraps-decorated-local-function": (row(M, "now_wrapped_local", {"a": INT}, INT), False, None),
     "arg-class-removed": (row(M, "good1", {"a": T(M, "GoneClass")}, INT), False, None),
     "arg-class-module-removed": (row(M, "good1", {"a": T("stale_fx.gone", "C")}, INT), False, None),
     "return-class-removed": (row(M, "good1", {"a": STR}, T(M, "GoneRet")), False, None),
